@@ -119,6 +119,15 @@ impl<'a> Dispatcher<'a, '_> {
     }
 }
 
+#[cfg(feature = "verif-hooks")]
+impl Dispatcher<'_, '_> {
+    /// Group sizes of every stage of the executed layout and the number of
+    /// thread-local systems (verification hook, read-only).
+    pub fn verif_shape(&self) -> (Vec<Vec<usize>>, usize) {
+        (self.inner.verif_shape(), self.thread_local.len())
+    }
+}
+
 impl RunNow<'_> for Dispatcher<'_, '_> {
     fn run_now(&mut self, world: &World) {
         self.dispatch(world);
